@@ -7,7 +7,8 @@ LEVEL_TEXT = ("Regex/table obligations on the real token rules (patterns read fr
               "boundary cannot change the token sequence, DESIGN App. A), NUMBER = digits, quoted literals are one STRING, cell shapes; LALR "
               "table: the three `seq : expression` reduce/reduce conflicts resolve by the separator.  Deductive: number/string literal actions, "
               "the sequence rules alternative by alternative (one slot per separator, None for an omitted slot, order preserved, two rows for ';' "
-              "between rows), pass-through of the slot list to the call, case-insensitive labels.  Bounded: whitespace/separator/blank-pattern sweeps.")
+              "between rows), pass-through of the slot list to the call, case-insensitive labels.  Bounded: whitespace/separator/blank-pattern sweeps; every "
+              "upper/lower pattern of 10 cell / range references gives the handler the same view (labels, indices, $ flags of both corners).")
 TRUSTED = ['PLY lex: master regex = rules in source order, first matching alternative wins (assumed contract)',
            'int(text) / float(text) read decimal literals (py_int / py_float uninterpreted)']
 CONTRACTS = ['p_expression_number', 'p_expression_string', 'to_number', 'p_expseq_comma', 'p_expseq_semicolon', 'p_expseq_backslash', 'p_array',
